@@ -236,6 +236,7 @@ package graphql
 //@ func valueHasVariables
 //@   props C01 C05 C06
 //@   functional
+//@   nosafety
 //@   assigns nothing
 //@   nopanic
 //@   ensures v == nil ==> !result
